@@ -9,9 +9,12 @@ package main
 // selects the matching continuation.
 
 import (
+	"fmt"
 	"go/ast"
 	"go/token"
 	"go/types"
+	"sort"
+	"strings"
 
 	"golang.org/x/tools/go/cfg"
 )
@@ -45,6 +48,19 @@ type Analysis[S any] struct {
 	Visit func(s S, n ast.Node, fc *FlowCtx[S])
 	// Wrappers known to the analysis.
 	Wrappers map[*types.Func]*Wrapper
+	// Inline (optional) decides whether a call to a declared function is analysed in place:
+	// it returns the declaration to descend into, or nil.  InlEnter / InlExit bracket the
+	// inlined body (sub is the context of the callee's body, fc the caller's).
+	// Key (optional) renders a state canonically; with it the non-final analyses of inlined
+	// callees are memoised per (call chain, entry state).
+	Key      func(s S) string
+	memo     map[string][]exitInfo[S]
+	Inline   func(call *ast.CallExpr, fc *FlowCtx[S]) *ast.FuncDecl
+	InlEnter func(s S, call *ast.CallExpr, sub, fc *FlowCtx[S]) S
+	InlExit  func(s S, call *ast.CallExpr, sub, fc *FlowCtx[S]) S
+	// InlDone (optional) post-processes the joined state after an inlined call (all exits,
+	// and the nil / non-nil error continuations).
+	InlDone func(s S, call *ast.CallExpr, sub, fc *FlowCtx[S]) S
 }
 
 // FlowCtx identifies the function (declaration or literal) being analysed.
@@ -54,6 +70,7 @@ type FlowCtx[S any] struct {
 	Parent *FlowCtx[S]
 	Call   *ast.CallExpr // wrapper call through which a literal is entered
 	W      *Wrapper
+	Inl    *ast.FuncDecl // non-nil: this context is the body of a declared function inlined at Call
 	final  bool
 	Nil    nilMap // nil-ness facts at the current point (read-only for clients)
 }
@@ -82,6 +99,15 @@ func (m nilMap) copy() nilMap {
 		o[k] = v
 	}
 	return o
+}
+
+func nilsKey(m nilMap) string {
+	var ks []string
+	for o, v := range m {
+		ks = append(ks, fmt.Sprintf("%p=%d", o, v))
+	}
+	sort.Strings(ks)
+	return strings.Join(ks, ",")
 }
 
 type split[S any] struct {
@@ -379,7 +405,12 @@ func (e *Analysis[S]) runBlock(fc *FlowCtx[S], b *cfg.Block, st fstate[S], ftype
 		// 1. Wrapper calls with literal arguments contained in this node.
 		var boundCall *ast.CallExpr
 		var boundSplit *split[S]
+		_, isDefer := n.(*ast.DeferStmt)
+		_, isGo := n.(*ast.GoStmt)
 		for _, call := range wrapperCallsIn(n) {
+			if !st.ok {
+				break
+			}
 			w := e.wrapperOf(call)
 			if w == nil {
 				continue
@@ -393,10 +424,35 @@ func (e *Analysis[S]) runBlock(fc *FlowCtx[S], b *cfg.Block, st fstate[S], ftype
 				boundCall, boundSplit = call, sp
 			}
 		}
+		if !st.ok {
+			break
+		}
 		// 2. The node itself.
 		if fc.final && e.Visit != nil {
 			fc.Nil = st.nils
 			e.Visit(st.s, n, fc)
+		}
+		// 2b. Calls to declared functions that the client wants analysed in place (the site
+		// records of the node carry the state before the callee ran).
+		if e.Inline != nil && !isDefer && !isGo {
+			calls := wrapperCallsIn(n)
+			for i := len(calls) - 1; i >= 0; i-- { // arguments before the call that takes them
+				call := calls[i]
+				if !st.ok {
+					break
+				}
+				if e.wrapperOf(call) != nil {
+					continue
+				}
+				if decl := e.Inline(call, fc); decl != nil {
+					if sp := e.inlineFunc(fc, &st, call, decl); sp != nil {
+						boundCall, boundSplit = call, sp
+					}
+				}
+			}
+			if !st.ok {
+				break
+			}
 		}
 		fc.Nil = st.nils
 		st.s = e.Stmt(st.s, n, fc)
@@ -419,7 +475,22 @@ func (e *Analysis[S]) runBlock(fc *FlowCtx[S], b *cfg.Block, st fstate[S], ftype
 			nret++
 			cls := e.classifyReturn(ret, ftype, st)
 			if exits != nil {
-				*exits = append(*exits, exitInfo[S]{st: e.copyState(st), ret: ret, cls: cls})
+				if boundSplit != nil && len(ret.Results) > 0 && unparen(ret.Results[len(ret.Results)-1]) == ast.Expr(boundCall) {
+					// "return wrapper(func() error {...})" / "return helper(...)": the exits of the
+					// callee, classified by the error they return, are the exits of this function.
+					if boundSplit.nilS != nil {
+						x := e.copyState(st)
+						x.s = e.Copy(*boundSplit.nilS)
+						*exits = append(*exits, exitInfo[S]{st: x, ret: ret, cls: isNil})
+					}
+					if boundSplit.nonNilS != nil {
+						x := e.copyState(st)
+						x.s = e.Copy(*boundSplit.nonNilS)
+						*exits = append(*exits, exitInfo[S]{st: x, ret: ret, cls: nonNil})
+					}
+				} else {
+					*exits = append(*exits, exitInfo[S]{st: e.copyState(st), ret: ret, cls: cls})
+				}
 			}
 			if fc.final && e.Exit != nil {
 				fc.Nil = st.nils
@@ -529,6 +600,94 @@ func (e *Analysis[S]) inline(fc *FlowCtx[S], st *fstate[S], call *ast.CallExpr, 
 	return nil
 }
 
+// inlineFunc analyses the body of a declared function at a call; st becomes the state after
+// the call.  When the callee's last result is an error the exits are classified by its
+// nil-ness, so that the caller's "if err != nil" selects the matching continuation.
+func (e *Analysis[S]) inlineFunc(fc *FlowCtx[S], st *fstate[S], call *ast.CallExpr, decl *ast.FuncDecl) *split[S] {
+	sub := &FlowCtx[S]{A: e, Fn: decl, Parent: fc, Call: call, Inl: decl}
+	entry := e.copyState(*st)
+	entry.splits = nil
+	if e.InlEnter != nil {
+		fc.Nil = entry.nils
+		entry.s = e.InlEnter(entry.s, call, sub, fc)
+	}
+	var exits []exitInfo[S]
+	mkey := ""
+	if !fc.final && e.Key != nil {
+		mkey = fmt.Sprintf("%p", call)
+		for c := fc; c != nil; c = c.Parent {
+			if c.Call != nil {
+				mkey += fmt.Sprintf("<%p", c.Call)
+			}
+		}
+		mkey += "|" + e.Key(entry.s) + "|" + nilsKey(entry.nils)
+		if cached, ok := e.memo[mkey]; ok {
+			exits = cached
+		}
+	}
+	if exits == nil {
+		exits = e.solve(sub, entry, fc.final)
+		if mkey != "" {
+			if e.memo == nil {
+				e.memo = map[string][]exitInfo[S]{}
+			}
+			if exits == nil {
+				exits = []exitInfo[S]{}
+			}
+			e.memo[mkey] = exits
+		}
+	}
+	var nilOut, nonNilOut, anyOut fstate[S]
+	for _, ex := range exits {
+		x := e.copyState(ex.st)
+		if e.InlExit != nil {
+			x.s = e.InlExit(x.s, call, sub, fc)
+		}
+		x.splits = nil
+		anyOut = e.joinState(anyOut, x)
+		switch ex.cls {
+		case isNil:
+			nilOut = e.joinState(nilOut, x)
+		case nonNil:
+			nonNilOut = e.joinState(nonNilOut, x)
+		default:
+			nilOut = e.joinState(nilOut, x)
+			nonNilOut = e.joinState(nonNilOut, x)
+		}
+	}
+	if !anyOut.ok {
+		st.ok = false // the callee never returns
+		return nil
+	}
+	if e.InlDone != nil {
+		anyOut.s = e.InlDone(anyOut.s, call, sub, fc)
+		if nilOut.ok {
+			nilOut.s = e.InlDone(nilOut.s, call, sub, fc)
+		}
+		if nonNilOut.ok {
+			nonNilOut.s = e.InlDone(nonNilOut.s, call, sub, fc)
+		}
+	}
+	keep := st.splits
+	*st = anyOut
+	st.splits = keep
+	if res := decl.Type.Results; res != nil && len(res.List) > 0 {
+		if t := e.Info.TypeOf(res.List[len(res.List)-1].Type); t != nil && t.String() == "error" {
+			sp := &split[S]{}
+			if nilOut.ok {
+				s := nilOut.s
+				sp.nilS = &s
+			}
+			if nonNilOut.ok {
+				s := nonNilOut.s
+				sp.nonNilS = &s
+			}
+			return sp
+		}
+	}
+	return nil
+}
+
 // bookkeep maintains nil-ness facts and wrapper-result bindings across a node.
 func (e *Analysis[S]) bookkeep(st *fstate[S], n ast.Node, boundCall *ast.CallExpr, sp *split[S]) {
 	kill := func(obj types.Object) {
@@ -542,6 +701,15 @@ func (e *Analysis[S]) bookkeep(st *fstate[S], n ast.Node, boundCall *ast.CallExp
 	case *ast.AssignStmt:
 		for _, l := range v.Lhs {
 			kill(objOf(e.Info, l))
+		}
+		if len(v.Lhs) > 1 && len(v.Rhs) == 1 && sp != nil && unparen(v.Rhs[0]) == ast.Expr(boundCall) {
+			// x, err := helper(...): the split is keyed by the error (last) result.
+			if obj := objOf(e.Info, v.Lhs[len(v.Lhs)-1]); obj != nil {
+				if st.splits == nil {
+					st.splits = map[types.Object]*split[S]{}
+				}
+				st.splits[obj] = sp
+			}
 		}
 		if len(v.Lhs) == 1 && len(v.Rhs) == 1 {
 			obj := objOf(e.Info, v.Lhs[0])
